@@ -244,6 +244,12 @@ def run(ctx, rep):
     order_ok = len(seq) == 3 and [c.name.split('::')[-1] for c in seq] == ['put_u32_le', 'put_u32_le', 'extend'] and ab_.dominates(seq[0].bb, seq[1].bb) and ab_.dominates(seq[1].bb, seq[2].bb)
     rep.ob('R11.m', FILESTATE_APPLY, 'code, length, ciphertext in order', order_ok, seq[0].where() if seq else None, None if order_ok else 'the encrypted command is no longer framed as code, length, ciphertext')
 
+    # ------------------------------------------------------------ R11.n the entry is what it was built from
+    rep.rule('R11.n', 'constructor: StateEntry::new stores every parameter in the field of its own name (index, term, leader, version, flags, timestamp, user, checksum, context, command) — what apply hashes, writes and records as the current index is one and the same entry', floor=10, analysis='A9')
+    import forms as forms__
+    SE_ = 'server::state::entry::StateEntry'
+    forms__.check_aggregates(ctx, rep, 'R11.n', {SE_ + '::new': {SE_: {k: k for k in ('index', 'term', 'leader_id', 'version', 'flags', 'timestamp', 'user_id', 'checksum', 'context', 'command')}}})
+
 
 def apply_is_self_serialised(ctx):
     """FileState::apply owns a MutexGuard local that is created before the first counter access and not dropped before the last"""
@@ -445,7 +451,9 @@ def rule_index_seeding(ctx, rep, rid):
         for c in adv:
             v = canon(b.pexpr_operand(c.args[1], 0, frozenset(), (c.bb, "t")), 0, 2)
             if c.name.endswith('store'):
-                okv = v == f
+                # `entry.index` of the entry built by StateEntry::new(index, ..) is that index (the constructor stores its
+                # first parameter in the field of that name: R11 constructor clause below)
+                okv = v == f or (v.startswith('StateEntry::new(' + f + ', ') and v.endswith(').index'))
             else:
                 okv = v == '1'
             rep.ob(rid, FILESTATE_APPLY, 'counter holds the allocated index', okv, c.where(),
